@@ -200,4 +200,19 @@ def retryLoopOk (fs : List (String × String)) : Bool :=
 theorem GETV1_retry_condition_recomputed : retryLoopOk retry_GETV1 = true := by decide
 theorem POSTV1_retry_condition_recomputed : retryLoopOk retry_POSTV1 = true := by decide
 
+/-! ### `GET /api/topics?inactive=true` (audit C25; F58 = /repo 783e91a, REVERTED by 338c8a6)
+
+The committed tree is the UNFIXED shape again: both per-topic fetches of `topicsHandler` throw their error away (`_`).
+Only this shape is accepted; the model the driver runs for the tree is `Fixes.tree` (`inactiveErrs := false`), the
+repaired behaviour stays behind the switch `Fixes.inactiveErrs` as the documented proposal (`Props.C18.inactive_warning`),
+and the defect is the open finding `view:inactive-drops-errors` (replayed on every run). A new repair of the handler
+breaks this tie and the model has to be looked at again. -/
+theorem topics_inactive_discards_errors : topicsInactiveFetches = [
+    "assign producers, _ := s.ci.GetLookupdTopicProducers( topicName, s.nsqadmin.getOpts().NSQLookupdHTTPAddresses)",
+    "assign topicChannels, _ := s.ci.GetLookupdTopicChannels( topicName, s.nsqadmin.getOpts().NSQLookupdHTTPAddresses)"] := by
+  decide
+
+/-- the tree's switch for F58 is off -/
+theorem tree_inactive_errs : Nsq.Model.Aggregate.Fixes.tree.inactiveErrs = false := rfl
+
 end Nsq.Tie.AdminAgg
